@@ -138,6 +138,34 @@ func CheckC18(env *core.Env, rep *core.Report) *core.Result {
 						add("accepted-pipeline-crashes:"+kind, fmt.Sprintf("pipeline %s crashed: %s", p, lastLine(run.Stderr)))
 					} else if strings.Contains(run.Stderr, "unknown task") || c.WellFormed && run.Exit != 0 {
 						add("accepted-pipeline-aborts:"+kind, fmt.Sprintf("pipeline %s aborted (exit %d): %s", p, run.Exit, lastLine(run.Stderr)))
+					} else if c.WellFormed {
+						// the references are what is run: every task the pipeline refers to, directly or
+						// through the pipelines it includes, has run
+						want := map[string]bool{}
+						var closure func(q string, depth int)
+						closure = func(q string, depth int) {
+							if depth > 8 {
+								return
+							}
+							for _, st := range c.Cfg.Pipes[q] {
+								if st.Task != "" {
+									want[st.Task] = true
+								} else if st.Pipe != "" {
+									closure(st.Pipe, depth+1)
+								}
+							}
+						}
+						closure(p, 0)
+						ranT := map[string]bool{}
+						for _, ln := range strings.Split(run.Stdout, "\n") {
+							ranT[strings.TrimSpace(ln)] = true
+						}
+						for tn := range want {
+							if !ranT[tn] {
+								add("accepted-pipeline-does-not-run-what-it-refers-to", fmt.Sprintf("pipeline %s ran without running task %s, which it refers to (through an included pipeline or directly)", p, tn))
+								break
+							}
+						}
 					}
 				}
 			}
